@@ -267,17 +267,20 @@ class MQTTProtocol(MQTTBaseProtocol):
         try:
             msg = self.factory.windowPubRx[self.addr][response.msgId]
         except KeyError as e:
+            msg = None
             log.debug("==> {packet:7}(id={response.msgId:04x} dup={response.dup}) already handled" , packet="PUBREL", response=response)
         else:
             log.debug("==> {packet:7}(id={response.msgId:04x} dup={response.dup})" , packet="PUBREL", response=response)
             del self.factory.windowPubRx[self.addr][response.msgId]
-            self._deliver(msg)
         # a repeated PUBREL must be answered as well [MQTT-4.3.3-2]
         reply = PUBCOMP()
         reply.msgId = response.msgId
         reply.encode()
         log.debug("<== {packet:7} (id={response.msgId:04x})" , packet="PUBCOMP", response=response)
         self.transport.write(reply.encode())
+        # the callback comes last: it may call back into the API (e.g. disconnect())
+        if msg is not None:
+            self._deliver(msg)
 
 
     # --------------------------------------------------------------------------
